@@ -4,6 +4,7 @@ import json
 from hypothesis import strategies as st
 
 from vgv import envs, gen, model as M, objs
+from vgv import prelude
 from vgv.framework import Check, guarded
 from vgv.objs import ACTIONS, COLORS, HEADINGS, STATUSES
 
@@ -184,6 +185,7 @@ def doors_boxes(d):
 
 
 def oracle_gen(case, ctx):
+    prelude.door_first(ctx)
     sd, a, chain = case['state'], case['action'], case['chain']
     if case.get('observe'):
         from vgv import obsutil
@@ -267,6 +269,7 @@ def strat_hist(tier):
 
 
 def oracle_hist(case, ctx):
+    prelude.door_first(ctx)
     env = guarded(ctx, 'build', envs.build_shipped, case['config'], case['seed'])
     guarded(ctx, 'reset', env.reset)
     sd = objs.canon_state(env.state)
@@ -308,10 +311,10 @@ CHECKS = [
           rule='4 headings x 3 statuses x 5 door colours x 9 held items x 7 relative placements x 8 actions, under actuate_door alone and the full chain, against model and documented rule'),
     Check('box_table', oracle_box, enumerate=enum_box, shards={'quick': 2, 'thorough': 4}, exhaustive=True,
           rule='4 headings x 10 contents (incl. nested boxes, doors) x 3 held items x 7 placements x 8 actions'),
-    Check('generated', oracle_gen, strategy=strat_gen, examples={'quick': 1000, 'thorough': 4000},
+    Check('generated', oracle_gen, strategy=strat_gen, examples={'quick': 340, 'thorough': 4000}, shards={'quick': 3, 'thorough': 16},
           rule='states with several doors/boxes (boxes containing doors) x random chains: model outcome membership; only a faced ACTUATE changes a door/box; keys not consumed',
           required=['actuate_door:LOCKED:match', 'actuate_door:LOCKED:nomatch', 'actuate_door:CLOSED:nomatch', 'actuate_box', 'changed', 'locked_same_colour_non_key', 'observed_first']),
-    Check('keydoor_histories', oracle_hist, strategy=strat_hist, examples={'quick': 60, 'thorough': 300},
+    Check('keydoor_histories', oracle_hist, strategy=strat_hist, examples={'quick': 20, 'thorough': 300}, shards={'quick': 3, 'thorough': 16},
           rule='shipped key-door environments: model-plan prefixes (with and without picking the key) followed by random actions; every door change must be a faced ACTUATE with the matching key; never beyond the wall while locked',
           required=['door_opened', 'locked_refused']),
 ]
